@@ -296,13 +296,8 @@ class Impl:
     def __init__(self, mx, compress, decode_text):
         import asyncio
         from aiohttp._websocket.reader_py import WebSocketDataQueue, WebSocketReader
-        self.proto = mock.Mock()
-        self.proto._reading_paused = False
+        self.proto = _Proto(self)
         self.pauses = 0
-
-        def pause():
-            self.pauses += 1
-        self.proto.pause_reading.side_effect = pause
         self.loop = _LOOP
         self.q = WebSocketDataQueue(self.proto, 2 ** 40, loop=self.loop)
         self.r = WebSocketReader(self.q, mx, compress, decode_text)
@@ -323,6 +318,20 @@ class Impl:
 
 
 _LOOP = None
+
+
+class _Proto:
+    """stand-in for BaseProtocol: never paused, counts pause requests"""
+    _reading_paused = False
+
+    def __init__(self, owner):
+        self.owner = owner
+
+    def pause_reading(self):
+        self.owner.pauses += 1
+
+    def resume_reading(self):
+        pass
 
 
 def ev_of(m):
@@ -481,6 +490,40 @@ def parse_spec(ans):
     return evs, code, cls
 
 
+_DEVIATIONS: list = []
+
+
+def flush_deviations(ctx, exe):
+    """Classify every recorded deviation from the RFC reference (which aiohttp-profile letters explain it / is it the
+    interleaved-data-frame class) with one model call, then report them."""
+    global _DEVIATIONS
+    devs, _DEVIATIONS = _DEVIATIONS, []
+    if not devs:
+        return
+    keys = {}
+    for case, cfg, stream, obs, spec in devs:
+        keys.setdefault((cfg, stream), None)
+    order = list(keys)
+    ans = fw.run_model(exe, [spec_line(p, cfg, stream) for cfg, stream in order for p in ("w", "c", "wc")])
+    for i, k in enumerate(order):
+        keys[k] = [parse_spec(a) for a in ans[3 * i:3 * i + 3]]
+    for case, cfg, stream, obs, (sev, sst, scls) in devs:
+        info = {"explained_by": "", "spec_class": None}
+        res = keys[(cfg, stream)]
+        for p, (ev, st, cls) in zip(("w", "c", "wc"), res):
+            if (ev, st) == obs:
+                info = {"explained_by": p, "spec_class": cls}
+                break
+        else:
+            ev, st, cls = res[2]
+            if cls == "data-in-message" and obs[0][:len(ev)] == ev:
+                info = {"explained_by": "", "spec_class": cls}
+        ctx.count("deviation:" + (info["explained_by"] or info["spec_class"] or "UNEXPLAINED"))
+        ctx.violation(dict(case, kind="spec", **info, spec=[sev, sst, scls], impl=[obs[0], obs[1]]),
+                      f"reader differs from the RFC 6455/7692 reference decoder: impl delivered {obs[0]} then {obs[1]}; "
+                      f"reference delivers {sev} then {sst}" + (f" ({scls})" if scls else ""))
+
+
 def classify(exe, cfg, stream, impl_obs):
     """impl_obs = (events, status).  -> dict(explained_by, spec_class)"""
     ans = fw.run_model(exe, [spec_line(p, cfg, stream) for p in ("w", "c", "wc")])
@@ -567,11 +610,11 @@ def corpus_cases():
     return out
 
 
-def check_case(ctx, exe, label, cfg, stream, seglist, spec_rfc):
+def check_case(ctx, exe, label, cfg, stream, seglist, spec_rfc, answers):
     """Correspondence (per feed, field by field) + oracle (vs whole-stream spec, segmentation independence)."""
-    answers = fw.run_model(exe, [run_line(cfg, segs) for segs in seglist])
     sev, sst, scls = spec_rfc
     ran = 0
+    info = None
     for segs, ans in zip(seglist, answers):
         model = parse_run(ans)
         per, allev, status, stale = run_impl(cfg, segs)
@@ -588,17 +631,16 @@ def check_case(ctx, exe, label, cfg, stream, seglist, spec_rfc):
             if not ok:
                 ctx.violation(dict(case, kind="return-value", feed=i), "feed_data return value / message size field is not what the state implies")
                 break
-        # oracle 1: same outcome as the RFC reference decoder on the whole stream
+        # oracle 1: same outcome as the RFC reference decoder on the whole stream (classified in one batch later)
         if (allev, status) != (sev, sst):
-            info = classify(exe, cfg, stream, (allev, status))
-            ctx.violation(dict(case, kind="spec", **info, spec=[sev, sst, scls], impl=[allev, status]),
-                          f"reader differs from the RFC 6455/7692 reference decoder: impl delivered {allev} then {status}; "
-                          f"reference delivers {sev} then {sst}" + (f" ({scls})" if scls else ""))
+            _DEVIATIONS.append((case, cfg, stream, (allev, status), (sev, sst, scls)))
         # oracle 2: nothing of a finished frame is retained
         if stale is not None:
             ctx.violation(dict(case, kind="stale-fragments", feed=stale),
                           "after a frame was completed _payload_fragments still holds entries (they are never released and count "
                           "towards the fragment cap that pauses the transport)")
+    if sst != "pending":
+        ctx.count("spec-class:" + str(scls))
     return ran
 
 
@@ -606,31 +648,33 @@ def suite_reader(ctx, exe):
     rng = ctx.rng
     ran = 0
     with _Backend(ToyBackend):
-        # corpus first
+        jobs = []      # (label, stream, cfg, seglist)
         for fn, case in corpus_cases():
             if case.get("suite") != "reader":
                 continue
             stream = bytes.fromhex(case["stream"])
             cfg = tuple(case["cfg"])
             segs = cut(stream, list(_acc(case["segs"]))[:-1]) if case.get("segs") else [stream]
-            spec = parse_spec(fw.run_model(exe, [spec_line("rfc", cfg, stream)])[0])
-            ran += check_case(ctx, exe, "corpus:" + fn, cfg, stream, [segs, [stream]], spec)
-        streams = gen_streams(ctx)
-        jobs = []
-        for label, stream, comp, total in streams:
+            jobs.append(("corpus:" + fn, stream, cfg, [segs, [stream], [stream[i:i + 1] for i in range(len(stream))]]))
+        budget_segs = 12 if ctx.quick else 10 ** 9
+        for label, stream, comp, total in gen_streams(ctx):
             for cfg in cfgs_for(rng, len(stream), total, comp):
-                jobs.append((label, stream, cfg))
-        specs = fw.run_model(exe, [spec_line("rfc", cfg, stream) for _, stream, cfg in jobs])
-        budget_segs = 14 if ctx.quick else 10 ** 9
-        for (label, stream, cfg), sp in zip(jobs, specs):
-            segl = segmentations(rng, stream, ctx.quick)
-            if len(segl) > budget_segs:
-                keep = [segl[0], segl[-1], segl[-2], segl[-3], segl[-4]] if len(segl) > 5 else segl
-                rest = [s for s in segl if s not in keep]
-                segl = keep + rng.sample(rest, min(len(rest), budget_segs - len(keep)))
+                segl = segmentations(rng, stream, ctx.quick)
+                if len(segl) > budget_segs:
+                    keep = [segl[0], segl[-1], segl[-2], segl[-3], segl[-4]]
+                    rest = segl[1:-4]
+                    segl = keep + rng.sample(rest, min(len(rest), budget_segs - len(keep)))
+                jobs.append((label, stream, cfg, segl))
+        specs = fw.run_model(exe, [spec_line("rfc", cfg, stream) for _, stream, cfg, _ in jobs])
+        runs = fw.run_model(exe, [run_line(cfg, segs) for _, _, cfg, segl in jobs for segs in segl])
+        k = 0
+        for (label, stream, cfg, segl), sp in zip(jobs, specs):
             ctx.count("stream:" + label.split(":")[0])
-            ran += check_case(ctx, exe, label, cfg, stream, segl, parse_spec(sp))
+            ran += check_case(ctx, exe, label, cfg, stream, segl, parse_spec(sp), runs[k:k + len(segl)])
+            k += len(segl)
+        flush_deviations(ctx, exe)
         ctx.sample({"suite": "reader", "label": jobs[-1][0], "cfg": list(jobs[-1][2]), "stream": jobs[-1][1].hex(), "spec": specs[-1]})
+        ctx.sample({"suite": "reader", "label": jobs[0][0], "cfg": list(jobs[0][2]), "stream": jobs[0][1].hex(), "spec": specs[0], "run": runs[0]})
     ctx.close_suite("reader_state", ran)
 
 
